@@ -146,6 +146,56 @@ class Ctx:
         """False only if hyps /\\ t is certainly unsatisfiable."""
         return self._quick(t) != z3.unsat
 
+    # -- contextual simplification ----------------------------------------------------------
+    def decide(self, c):
+        """True / False if the hypotheses of this path imply c / not c, else None (cached; hypotheses only grow)"""
+        k = c.get_id()
+        cache = self.ghost.setdefault("_decide", {})
+        if k in cache and cache[k][1] is not None:
+            return cache[k][1]
+        old = self.branch_timeout_ms
+        self.branch_timeout_ms = 300
+        try:
+            if self._quick(z3.Not(c)) == z3.unsat:
+                r = True
+            elif self._quick(c) == z3.unsat:
+                r = False
+            else:
+                r = None
+        finally:
+            self.branch_timeout_ms = old
+        cache[k] = (c, r)          # the term is kept alive: z3 recycles ids of collected ASTs
+        return r
+
+    def prune(self, t, depth=0):
+        """a term equal to t under the hypotheses of this path, with decided if-then-else nodes removed"""
+        t = z3.simplify(t)
+        if depth > 12 or not z3.is_app(t) or t.num_args() == 0:
+            return t
+        cache = self.ghost.setdefault("_prune", {})
+        k = t.get_id()
+        if k in cache:
+            return cache[k][1]
+        if z3.is_app_of(t, z3.Z3_OP_ITE):
+            c, a, b = t.children()
+            c = self.prune(c, depth + 1)
+            d = True if z3.is_true(c) else (False if z3.is_false(c) else self.decide(c))
+            if d is True:
+                r = self.prune(a, depth + 1)
+            elif d is False:
+                r = self.prune(b, depth + 1)
+            else:
+                r = z3.If(c, self.prune(a, depth + 1), self.prune(b, depth + 1))
+        else:
+            kids = [self.prune(ch, depth + 1) for ch in t.children()]
+            try:
+                r = t.decl()(*kids) if any(x.get_id() != y.get_id() for x, y in zip(kids, t.children())) else t
+            except Exception:
+                r = t
+        r = z3.simplify(r)
+        cache[k] = (t, r)
+        return r
+
     # -- branching --------------------------------------------------------------------------
     def branch(self, t, label=""):
         t = z3.simplify(t)
@@ -402,6 +452,7 @@ def py_mod(a, b):
 class SInt:
     """Symbolic Python / numpy integer (mathematical)."""
     __slots__ = ("t", "dtype_")
+    __array_ufunc__ = None
     ndim = 0
     shape = ()
     size = 1
@@ -461,6 +512,14 @@ class SInt:
     def __rfloordiv__(self, o): return self._div(o, True, False)
     def __mod__(self, o): return self._div(o, False, True)
     def __rmod__(self, o): return self._div(o, True, True)
+    def __rrshift__(self, o):
+        from .arr import SBV, scalar_term, apply_binary
+        return SBV(apply_binary("right_shift", scalar_term(o, "bv"), z3.Int2BV(self.t, 64)))
+
+    def __rlshift__(self, o):
+        from .arr import SBV, scalar_term, apply_binary
+        return SBV(apply_binary("left_shift", scalar_term(o, "bv"), z3.Int2BV(self.t, 64)))
+
     def __neg__(self): return SInt(-self.t)
     def __pos__(self): return self
     def __abs__(self): return SInt(z3.If(self.t >= 0, self.t, -self.t))
@@ -516,6 +575,7 @@ numbers.Integral.register(SInt)
 
 class SBool:
     __slots__ = ("t",)
+    __array_ufunc__ = None
     ndim = 0
     shape = ()
     size = 1
